@@ -1,6 +1,7 @@
 import FrappyModel.Client.Match
 import FrappyModel.Client.Timed
 import FrappyModel.Client.Shutdown
+import FrappyModel.Client.Reconnect
 import FrappyModel.Client.Conn
 /-
 C11 — Client: every caller gets its own reply or an error, under all interleavings; clean shutdown.
@@ -190,6 +191,58 @@ def SelfJoin (s : Sh) : Prop := s.tx = .disc .d5 ∨ s.rx = .disc .d8
 /-- the shutdown cannot get stuck: once a shutdown is requested (`_running` is false), as long as a worker thread or
 a thread inside `disconnect()` has not finished, one of these threads can take its next step -/
 def ShutdownProgress (s : Sh) : Prop := s.running = false → allDone s = false → canMove s = true
+
+end
+
+/-! ### the shutdown clauses on the life-cycle model (connect / reconnect / disconnect across connections) -/
+section
+open Frappy.Client.Reconnect
+
+/-- "The client stays shut down": as long as the shutdown request of a `disconnect()` that a user called and that has
+returned stands — the flag has not been cleared since, i.e. no user has asked for the connection again, and no request of a
+user was about to establish a connection when it was made — the client holds no connection, and no thread is at a point
+from which it would establish one without looking at the flag again. -/
+def StaysShutDown (s : St) : Prop :=
+  ∀ (u : Nat) (U : Th), s.th[u]? = some U → U.kind = .userDisc → U.pc = .done → standing s U = true →
+    s.io = none ∧ ∀ (i : Nat) (t : Th), s.th[i]? = some t → inWindow t = false
+
+/-- … and no worker thread is left in its loop -/
+def inLoop (t : Th) : Bool :=
+  (t.kind == .txw && (t.pc == .tgate || t.pc == .tcheck || t.pc == .tgetq || t.pc == .tget || t.pc == .tproc || t.pc == .tsend))
+  || (t.kind == .rxw && (t.pc == .rgate || t.pc == .rcheck || t.pc == .rio || t.pc == .rread || t.pc == .rhbq || t.pc == .rhb))
+
+def NoWorkerInLoop (s : St) : Prop :=
+  ∀ (u : Nat) (U : Th), s.th[u]? = some U → U.kind = .userDisc → U.pc = .done → standing s U = true →
+    ∀ (i : Nat) (t : Th), s.th[i]? = some t → inLoop t = false
+
+/-- … which cannot hold at the very moment the `disconnect()` returns (a `connect()` of a user that had assigned `self.io`
+before the flag was set still registers its workers; they end by themselves when the rx thread finds `self.io` gone), so
+the clause is: the worker threads run out — left to themselves, after some number of steps none is alive -/
+def WorkersRunOut (cfg : Cfg) (s : St) : Prop :=
+  ∀ (u : Nat) (U : Th), s.th[u]? = some U → U.kind = .userDisc → U.pc = .done → standing s U = true →
+    ∃ n, workersAlive (runGreedy cfg n s) = []
+
+/-- a reconnect thread does not revoke a shutdown request: when it comes to `_shutdown.clear()` in `connect()` it finds
+itself registered and leaves the flag alone -/
+def ReconnectKeepsFlag (s : St) : Prop :=
+  ∀ (i : Nat) (t : Th), s.th[i]? = some t → t.kind = .recon → t.pc = .c2 → s.registered.contains i = true
+
+/-- monitor for the hang of `disconnect()`: some thread waits in `txthread.join()` for a tx thread that sits in `txq.get()` on
+an empty queue, the connection is healthy and `_running` is set, and every other thread has finished or is the rx thread
+polling: nobody is left who would put the marker -/
+def txJoinHangs (s : St) : Bool :=
+  let idx := List.range s.th.length
+  s.running && (match s.io with | some c => !connDead s c | none => false) &&
+  idx.any (fun u => match s.th[u]? with
+    | some U => U.pc == .d5 && (match U.w with
+      | some x => (match s.th[x]? with
+        | some X => X.kind == .txw && X.pc == .tget && (queueOf s X.q).isEmpty
+            && idx.all (fun i => i == u || i == x || (match s.th[i]? with
+                | some t => t.pc == .done || (t.kind == .rxw && (t.pc == .rcheck || t.pc == .rio || t.pc == .rread))
+                | none => true))
+        | none => false)
+      | none => false)
+    | none => false)
 
 end
 
